@@ -788,22 +788,24 @@ func c07Categories(p *Prog, r *Report, prefixed *ssa.Function) {
 }
 
 func c07Aggregation(p *Prog, r *Report) {
-	decls := p.Func(Mod, "Ctx.Decls")
-	if decls == nil {
-		r.Anchor("R07d", "goose.Ctx.Decls")
-		return
-	}
-	// the call that translates one declaration and the append of its error
+	// the call that translates one declaration under the recover frame, and the function that aggregates
+	// the results (found by role: the caller of a function that defers a recover)
 	var call *ssa.Call
-	p.instrs(decls, func(b *ssa.BasicBlock, i int, in ssa.Instruction) {
-		if c, ok := in.(*ssa.Call); ok && strings.HasSuffix(calleeName(c), ".declsOrError") {
-			call = c
-		}
-	})
+	var decls *ssa.Function
+	for _, g := range p.FuncsIn(Mod) {
+		p.instrs(g, func(b *ssa.BasicBlock, i int, in ssa.Instruction) {
+			if c, ok := in.(*ssa.Call); ok {
+				if cal := calleeOf(&c.Call); cal != nil && cal.Pkg != nil && cal.Pkg.Pkg.Path() == Mod && recovers(p, cal) {
+					call, decls = c, g
+				}
+			}
+		})
+	}
 	if call == nil {
-		r.Fail("R07d", "Decls translates each declaration under the recover frame", decls.Pos(), "no call of declsOrError", "")
+		r.Anchor("R07d", "the call of the recovering per-declaration translation")
 		return
 	}
+	r.Func(FuncName(decls))
 	// error branch: appends and continues (no return reachable from the error branch without going through the loop header)
 	var errIf *ssa.If
 	p.instrs(decls, func(b *ssa.BasicBlock, i int, in ssa.Instruction) {
